@@ -12,7 +12,7 @@
      * goroutine-local storage is never found missing, no unclassified panic (C14_storage_never_missing);
      * no table is left when all goroutines of the case have ended (C14_tls_released). *)
 From Coq Require Import ZArith NArith Bool List.
-From PcoreV Require Import Model.Base Model.Ctx Model.CtxGid.
+From PcoreV Require Import Model.Base Model.Ctx Model.CtxGid Model.CtxRoot.
 Import ListNotations.
 
 Definition ctx_case := (list (list prog) * list nat * list (list event) * nat)%type.
@@ -56,3 +56,26 @@ Definition gid_spec_check (c : gid_case) : bool :=
   let '(id, _, _, observed) := c in option_eqb Z.eqb (Some (Z.of_N id)) observed.
 
 Definition gid_spec_violations (cs : list gid_case) : list N := failing gid_spec_check cs.
+
+(* root_machine (model tie of Model/CtxRoot.v, family dwcraw): one real goroutine that starts with the table entry
+   `start` (None: plain go; Some None: threadlocal.Go; Some (Some 0): goroutine of px.Fork / px.Go / body of pcore.Do)
+   runs a program over pcore.RootContext / threadlocal.Init / Set / Delete / px.DoWithContext with the current, a new
+   or an enclosing context / pcore.Do / Try / DoWithParent / TryWithParent / recover / panic; the harness records at
+   every observation (threadlocal.Initialized(), the identity of threadlocal.Get(key)), the panics, and the entry at the
+   end.  The model must produce the same events and the same final entry. *)
+Definition root_case := (option table * list rop * list revent * option table)%type.
+
+Definition root_check (c : root_case) : bool :=
+  let '(start, ps, observed, final) := c in
+  let '(tr, fin) := rrun start ps in
+  list_eqb revent_eqb tr observed && table_eqb fin final.
+
+Definition root_mismatches (cs : list root_case) : list N := failing root_check cs.
+
+(* root_spec (no model; C14_scopes_restore on the observed data): when every top-level statement is a scope call or
+   an observation, every observation at top level and the final entry report the entry the goroutine started with *)
+Definition root_spec_check (c : root_case) : bool :=
+  let '(start, ps, observed, final) := c in
+  negb (forallb is_scope ps) || table_eqb final start.
+
+Definition root_spec_violations (cs : list root_case) : list N := failing root_spec_check cs.
